@@ -19,9 +19,11 @@ def run_search(rep, tier, want_explain=False, statuses=("PANIC", "BUDGET", "C03"
     E, B, _ = bounds()
     quick = tier == "quick"
     plan = [("corpus", ["-n", "0"]), ("mutate", ["-n", "120000" if quick else "6000000", "-seed", str(rep.seed)]),
-            ("exhaustive", ["-n", "1" if quick else "2"]), ("nest", ["-n", "20000" if quick else "1000000"])]
+            ("exhaustive", ["-n", "1" if quick else "2"]), ("nest", ["-n", "20000" if quick else "1000000"]),
+            ("truncate", ["-n", "1500" if quick else "0"]), ("repeat", ["-n", "60" if quick else "3000", "-seed", str(rep.seed)])]
     if tier == "targeted":   # an obligation broke: spend about half a minute looking for a concrete input
-        plan = [("corpus", ["-n", "0"]), ("mutate", ["-n", "3000000", "-seed", str(rep.seed)]), ("exhaustive", ["-n", "2"]), ("nest", ["-n", "20000"])]
+        plan = [("corpus", ["-n", "0"]), ("truncate", ["-n", "0"]), ("repeat", ["-n", "1500", "-seed", str(rep.seed)]),
+                ("mutate", ["-n", "3000000", "-seed", str(rep.seed)]), ("exhaustive", ["-n", "2"]), ("nest", ["-n", "20000"])]
     cases = os.path.join(verif.BUILD, "search_cases_%s.txt" % rep.pid)
     dist = {}
     with open(cases, "w") as f:
@@ -59,3 +61,73 @@ def run_search(rep, tier, want_explain=False, statuses=("PANIC", "BUDGET", "C03"
                 except ValueError:
                     pass
     return res
+
+
+def focus_corpus(function_names, path, limit=4000):
+    """Targeted search support: statements of the test corpus that mention a keyword occurring in the given parser
+    functions or in their direct callers (token.X constants and upper-case string literals). Returns (#statements, keywords)."""
+    import glob
+    import re
+    src = ""
+    for f in glob.glob(os.path.join(verif.REPO, "parser", "*.go")):
+        if not f.endswith("_test.go"):
+            src += open(f, encoding="utf-8", errors="replace").read() + "\n"
+    bodies = {}
+    for m in re.finditer(r"\nfunc (?:\(p \*Parser\) )?([A-Za-z0-9_]+)\(", src):
+        name = m.group(1)
+        end = src.find("\nfunc ", m.end())
+        bodies[name] = src[m.start():end if end > 0 else len(src)]
+    names = set(n.split("@")[0] for n in function_names)
+    callers = set(n for n, b in bodies.items() if any(re.search(r"\b%s\(" % re.escape(fn), b) for fn in names) and n not in names)
+    kws = set()
+    for n in names | callers:
+        b = bodies.get(n, "")
+        kws.update(re.findall(r"token\.([A-Z][A-Z_]+)", b))
+        kws.update(re.findall(r'"([A-Z][A-Z_]{2,})"', b))
+    kws -= {"EOF", "IDENT", "LPAREN", "RPAREN", "COMMA", "DOT", "NUMBER", "STRING", "SEMICOLON", "LBRACKET", "RBRACKET", "EQ", "AS", "NOT", "AND", "OR"}
+    if not kws:
+        return 0, []
+    pat = re.compile(r"\b(" + "|".join(sorted(kws)) + r")\b", re.I)
+    out, seen = [], set()
+    for f in sorted(glob.glob(os.path.join(verif.REPO, "parser", "testdata", "*", "query.sql"))):
+        try:
+            text = open(f, encoding="utf-8", errors="replace").read()
+        except OSError:
+            continue
+        for piece in text.split(";"):
+            st = " ".join(l for l in piece.splitlines() if not l.strip().startswith("--")).strip()
+            if 8 < len(st) < 1500 and pat.search(st) and st not in seen:
+                seen.add(st)
+                out.append(st)
+                if len(out) >= limit:
+                    break
+        if len(out) >= limit:
+            break
+    with open(path, "w") as fo:
+        fo.write("\n".join(out) + "\n")
+    return len(out), sorted(kws)
+
+
+def run_focused(rep, function_names, statuses):
+    """truncate + repeat + mutate concentrated on statements that reach the given functions."""
+    E, B, _ = bounds()
+    corp = os.path.join(verif.BUILD, "focus_corpus_%s.txt" % rep.pid)
+    n, kws = focus_corpus(function_names, corp)
+    if n == 0:
+        return {"hits": [], "n": 0, "keywords": kws}
+    cases = os.path.join(verif.BUILD, "focus_cases_%s.txt" % rep.pid)
+    with open(cases, "w") as f:
+        for mode, extra in (("truncate", ["-n", "0"]), ("repeat", ["-n", "4000", "-seed", str(rep.seed)]), ("mutate", ["-n", "400000", "-seed", str(rep.seed)])):
+            rc, out = verif.sh([PSEARCH, "gen", "-mode", mode, "-corpus", corp] + extra, timeout=1200)
+            f.write(out)
+    outp = cases + ".out"
+    verif.parallel_map_files([PSEARCH, "run", "-E", str(E), "-B", str(B)], cases, outp, timeout=3000)
+    hits, total = [], 0
+    with open(cases) as fc, open(outp) as fo:
+        for c, o in zip(fc, fo):
+            p = o.rstrip("\n").split("\t")
+            total += 1
+            if len(p) >= 4 and p[0] in statuses and len(hits) < 20:
+                hits.append((p[0], c.strip(), p[3], int(p[1]), int(p[2])))
+    hits.sort(key=lambda h: len(h[1]))
+    return {"hits": hits, "n": total, "keywords": kws, "statements": n}
